@@ -48,6 +48,7 @@ def tasks(tier, seed):
         for ci, c in enumerate(CERT_REQS):
             ts.append({"part": "wss", "trust": ti, "cert_reqs": ci, "tier": tier, "name": "wss/%s/%s" % (t, c)})
     ts.append({"part": "ws", "name": "ws"})
+    ts.append({"part": "history", "name": "history"})
     return ts
 
 
@@ -341,7 +342,33 @@ def run_task(desc):
         if f is not None:
             runner.add_failure(res, f[0], f[1], {"args": list(a)})
 
-    if desc["part"] == "ws":
+    if desc["part"] == "history":
+        # a connection with relaxed (or simply different) TLS options, then - in the same process - a connection with other options:
+        # the second one is judged by its own options alone, whatever was configured, cached or failed before
+        FIRST = [("wss", ssl.CERT_NONE, False, "none", "absent", "self-other", "direct"), ("wss", "absent", False, "ca_certs", "absent", "ca-other", "direct"),
+                 ("wss", "absent", "absent", "context-noverify", "absent", "self-other", "direct"), ("wss", "absent", "absent", "ca_certs", "other.test", "ca-other", "direct"),
+                 ("wss", "absent", "absent", "ca_certs", "absent", "ca-good", "direct"), ("wss", "absent", "absent", "none", "absent", "ca-good", "direct"),
+                 ("wss", ssl.CERT_NONE, False, "none", "absent", "ca-good", "proxy")]
+        SECOND = [("wss", "absent", "absent", "ca_certs", "absent", sc, route) for sc in SERVER_CERT for route in ROUTES] + \
+                 [("wss", "absent", "absent", "none", "absent", sc, "direct") for sc in SERVER_CERT] + \
+                 [("wss", ssl.CERT_REQUIRED, True, "ca_cert_path", "absent", sc, "direct") for sc in SERVER_CERT[:2]] + \
+                 [("wss", "absent", "absent", "env-file", "absent", sc, "direct") for sc in SERVER_CERT[:2]]
+        for a in FIRST:
+            for b in SECOND:
+                n += 1
+                try:
+                    run_case(*a)
+                    f = run_case(*b)
+                except Exception as e:  # noqa
+                    v = as_violation(e)
+                    if v is None:
+                        raise
+                    f = (v.sig, v.what)
+                if f is not None:
+                    runner.add_failure(res, dict(f[0], after_other_connection=True), f[1] + "  [after a connection with cert_reqs=%s check_hostname=%s trust=%s server_hostname=%s]" % a[1:5],
+                                       {"history": [list(a), list(b)]})
+        res["samples"].append({"history_pairs": n})
+    elif desc["part"] == "ws":
         for cr, chk, tr in itertools.product(CERT_REQS, CHECK_HOST, TRUST[:5]):
             for route in ROUTES[:1]:
                 run("ws", cr, chk, tr, "absent", "ca-good", route)
@@ -386,5 +413,9 @@ def run_task(desc):
 
 
 def replay(rep):
+    if rep.get("history"):
+        run_case(*rep["history"][0])
+        f = run_case(*rep["history"][1])
+        return None if f is None else {"sig": f[0], "what": f[1]}
     f = run_case(*rep["args"])
     return None if f is None else {"sig": f[0], "what": f[1]}
